@@ -1,3 +1,458 @@
-import Cutadapt.Stats
+import Cutadapt.Proofs.OrderStages
+import Cutadapt.Generated.StageOrder
+/-! # C10 — read modifications are applied in the documented fixed order
+
+Model: `makeModsSingle` / `makeModsPaired` (the modifier part of `cli.make_pipeline_from_args` with its helpers
+`make_unconditional_cutters`, `make_quality_trimmers`, `make_adapter_cutter`, `make_shortener`,
+`modifiers_applying_to_both_ends_if_paired`), `runModsS` (the loop `for step in modifiers_and_steps`), `applyS`/`applyP`.
+The option record `Opts` holds the values argparse produced, so the order of options on the command line is not even visible
+to the assembly, except for the lists `-u`/`-U` and `--strip-suffix`, whose order is kept.
+The generated file `Cutadapt.Generated.StageOrder` (class names of `pipeline._modifiers`/`_steps` built by the real
+`make_pipeline_from_args`) ties the hand-written assembly model to the code on every run. -/
 namespace Cutadapt.C10
+open Cutadapt
+
+/-! ## The assembled list is the documented composition -/
+
+/-- **`makeModsSingle` = the documented stages, each present iff its option is**:
+    `cuts ++ nextseq? ++ qtrim? ++ adapterStage? ++ polyA? ++ shorten? ++ trimN? ++ lengthTag? ++ stripSuffixes ++ prefixSuffix? ++ zeroCap? ++ rename?`
+    (`documentedSingle`, written out once in `Proofs/OrderStages.lean`). -/
+theorem makeMods_is_documented_composition (o : Opts) (ads : List Matchable) (l : List SMod)
+    (h : makeModsSingle o ads = .ok l) :
+    l = cutStage o.cut ++ nextseqStage o ++ qtrimStage o.qualityCutoff o.qualityBase ++
+        adapterStage o ads (cutStage o.cut ++ nextseqStage o ++ qtrimStage o.qualityCutoff o.qualityBase).isEmpty ++
+        polyAStage o ++ shortenStage o ++ trimNStage o ++ lengthTagStage o ++ stripSuffixStage o ++ prefixSuffixStage o ++
+        zeroCapStage o ++ renameStage o := by
+  rw [makeModsSingle_eq] at h
+  split at h
+  · cases h
+  · split at h
+    · cases h
+    · injection h with h; exact h.symm
+
+/-- the assembly succeeds exactly when `-u` is used at most twice with different signs and no rejected option combination
+    (`--pair-adapters` without paired input, `--action retain/crop` with `--times > 1`, `--rename` with `-x`/`-y`) is present -/
+theorem makeModsSingle_ok_iff (o : Opts) (ads : List Matchable) :
+    (∃ l, makeModsSingle o ads = .ok l) ↔
+      ((o.cut.length ≤ 2 ∧ ¬ (o.cut.length = 2 ∧ o.cut[0]! * o.cut[1]! > 0)) ∧ rejectedSingle o ads = false) := by
+  rw [makeModsSingle_eq, ← cutMods_ok_iff]
+  cases hc : cutMods o.cut with
+  | error e => simp
+  | ok c => cases hr : rejectedSingle o ads <;> simp
+
+/-- **every step sees exactly the output of the previous one**: running a concatenation of modifier lists is the left-to-right
+    Kleisli composition — read, modification info and event log of the first part are the input of the second -/
+theorem runModsS_append (names : Names) (a b : List SMod) (r : Read) (i : Info) (evs : List Event) :
+    runModsS names (a ++ b) r i evs =
+      (runModsS names a r i evs).bind (fun (r', i', e') => runModsS names b r' i' e') := by
+  induction a generalizing r i evs with
+  | nil => rfl
+  | cons m ms ih =>
+    simp only [List.cons_append, runModsS]
+    cases applyS names 0 m r i with
+    | error e => rfl
+    | ok t => obtain ⟨r', i', e'⟩ := t; exact ih r' i' _
+
+/-- one step: the modifier is applied to the current read and info; its events are appended to the log -/
+theorem runModsS_cons (names : Names) (m : SMod) (ms : List SMod) (r : Read) (i : Info) (evs : List Event) :
+    runModsS names (m :: ms) r i evs =
+      (applyS names 0 m r i).bind (fun (r', i', e') => runModsS names ms r' i' (evs ++ e')) := by
+  simp only [runModsS]
+  cases applyS names 0 m r i with
+  | error e => rfl
+  | ok t => rfl
+
+theorem runModsP_append (a1 a2 : List Matchable) (a b : List PMod) (r : Read × Read) (i : Info × Info) (evs : List Event) :
+    runModsP a1 a2 (a ++ b) r i evs =
+      (runModsP a1 a2 a r i evs).bind (fun (r', i', e') => runModsP a1 a2 b r' i' e') := by
+  induction a generalizing r i evs with
+  | nil => rfl
+  | cons m ms ih =>
+    simp only [List.cons_append, runModsP]
+    cases applyP a1 a2 m r i with
+    | error e => rfl
+    | ok t => obtain ⟨r', i', e'⟩ := t; exact ih r' i' _
+
+/-! ## Stage order -/
+
+/-- **Single-end: the modifiers are in the documented order**, whatever the options are -/
+theorem stage_order_single (o : Opts) (ads : List Matchable) (l : List SMod) (h : makeModsSingle o ads = .ok l) :
+    l.Pairwise (fun a b => stageRank a ≤ stageRank b) := by
+  rw [makeMods_is_documented_composition o ads l h]
+  have h0 := (Below.nil stageRank 0).append_const stageRank (Nat.le_refl _) (rank_cutStage o.cut)
+  have h1 := h0.append_const stageRank (by omega : 0 ≤ 1) (rank_nextseqStage o)
+  have h2 := h1.append_const stageRank (by omega : 1 ≤ 2) (rank_qtrimStage o.qualityCutoff o.qualityBase)
+  have h3 := h2.append_const stageRank (by omega : 2 ≤ 3)
+    (rank_adapterStage o ads (cutStage o.cut ++ nextseqStage o ++ qtrimStage o.qualityCutoff o.qualityBase).isEmpty)
+  have h4 := h3.append_const stageRank (by omega : 3 ≤ 4) (rank_polyAStage o)
+  have h5 := h4.append_const stageRank (by omega : 4 ≤ 5) (rank_shortenStage o)
+  have h6 := h5.append_const stageRank (by omega : 5 ≤ 6) (rank_trimNStage o)
+  have h7 := h6.append_const stageRank (by omega : 6 ≤ 7) (rank_lengthTagStage o)
+  have h8 := h7.append_const stageRank (by omega : 7 ≤ 8) (rank_stripSuffixStage o)
+  have h9 := h8.append_const stageRank (by omega : 8 ≤ 9) (rank_prefixSuffixStage o)
+  have h10 := h9.append_const stageRank (by omega : 9 ≤ 10) (rank_zeroCapStage o)
+  have h11 := h10.append_const stageRank (Nat.le_refl 10) (rank_renameStage o)
+  simpa only [List.nil_append, RankSorted] using h11.1
+
+def cutOf : SMod → Option Int
+  | .cut n => some n
+  | _ => none
+def stripSuffixOf : SMod → Option Bytes
+  | .stripSuffix s => some s
+  | _ => none
+
+theorem filterMap_nil_of_rank {f : SMod → Option β} (r : Nat) (hf : ∀ m, (f m).isSome → stageRank m = r) (l : List SMod)
+    (r' : Nat) (hl : ∀ b ∈ l, stageRank b = r') (hne : r' ≠ r) : l.filterMap f = [] := by
+  rw [List.filterMap_eq_nil_iff]
+  intro a ha
+  cases hfa : f a with
+  | none => rfl
+  | some v =>
+    have := hf a (by simp [hfa])
+    have := hl a ha
+    omega
+
+theorem cutOf_rank : ∀ m, (cutOf m).isSome → stageRank m = 0 := by
+  intro m h; cases m <;> simp [cutOf] at h <;> rfl
+theorem stripSuffixOf_rank : ∀ m, (stripSuffixOf m).isSome → stageRank m = 8 := by
+  intro m h; cases m <;> simp [stripSuffixOf] at h <;> rfl
+
+/-- **`-u` values are applied in the order given** (a value 0 is dropped), and nothing else is an unconditional cut -/
+theorem cuts_in_given_order (o : Opts) (ads : List Matchable) (l : List SMod) (h : makeModsSingle o ads = .ok l) :
+    l.filterMap cutOf = o.cut.filter (· != 0) := by
+  rw [makeMods_is_documented_composition o ads l h]
+  simp only [List.filterMap_append]
+  rw [filterMap_nil_of_rank 0 cutOf_rank _ 1 (rank_nextseqStage o) (by omega),
+      filterMap_nil_of_rank 0 cutOf_rank _ 2 (rank_qtrimStage _ _) (by omega),
+      filterMap_nil_of_rank 0 cutOf_rank _ 3 (rank_adapterStage o ads _) (by omega),
+      filterMap_nil_of_rank 0 cutOf_rank _ 4 (rank_polyAStage o) (by omega),
+      filterMap_nil_of_rank 0 cutOf_rank _ 5 (rank_shortenStage o) (by omega),
+      filterMap_nil_of_rank 0 cutOf_rank _ 6 (rank_trimNStage o) (by omega),
+      filterMap_nil_of_rank 0 cutOf_rank _ 7 (rank_lengthTagStage o) (by omega),
+      filterMap_nil_of_rank 0 cutOf_rank _ 8 (rank_stripSuffixStage o) (by omega),
+      filterMap_nil_of_rank 0 cutOf_rank _ 9 (rank_prefixSuffixStage o) (by omega),
+      filterMap_nil_of_rank 0 cutOf_rank _ 10 (rank_zeroCapStage o) (by omega),
+      filterMap_nil_of_rank 0 cutOf_rank _ 10 (rank_renameStage o) (by omega)]
+  simp [cutStage, List.filterMap_map, Function.comp_def, cutOf]
+
+/-- **`--strip-suffix` values are applied in the order given** -/
+theorem strip_suffixes_in_given_order (o : Opts) (ads : List Matchable) (l : List SMod) (h : makeModsSingle o ads = .ok l) :
+    l.filterMap stripSuffixOf = o.stripSuffix := by
+  rw [makeMods_is_documented_composition o ads l h]
+  simp only [List.filterMap_append]
+  rw [filterMap_nil_of_rank 8 stripSuffixOf_rank _ 0 (rank_cutStage _) (by omega),
+      filterMap_nil_of_rank 8 stripSuffixOf_rank _ 1 (rank_nextseqStage o) (by omega),
+      filterMap_nil_of_rank 8 stripSuffixOf_rank _ 2 (rank_qtrimStage _ _) (by omega),
+      filterMap_nil_of_rank 8 stripSuffixOf_rank _ 3 (rank_adapterStage o ads _) (by omega),
+      filterMap_nil_of_rank 8 stripSuffixOf_rank _ 4 (rank_polyAStage o) (by omega),
+      filterMap_nil_of_rank 8 stripSuffixOf_rank _ 5 (rank_shortenStage o) (by omega),
+      filterMap_nil_of_rank 8 stripSuffixOf_rank _ 6 (rank_trimNStage o) (by omega),
+      filterMap_nil_of_rank 8 stripSuffixOf_rank _ 7 (rank_lengthTagStage o) (by omega),
+      filterMap_nil_of_rank 8 stripSuffixOf_rank _ 9 (rank_prefixSuffixStage o) (by omega),
+      filterMap_nil_of_rank 8 stripSuffixOf_rank _ 10 (rank_zeroCapStage o) (by omega),
+      filterMap_nil_of_rank 8 stripSuffixOf_rank _ 10 (rank_renameStage o) (by omega)]
+  simp [stripSuffixStage, List.filterMap_map, Function.comp_def, stripSuffixOf]
+
+/-! ## The final group: zero-capping and renaming commute -/
+
+theorem renderTok_name_only (names : Names) (r r' : Read) (info : Info) (h : r.name = r'.name) (t : Tok) :
+    renderTok names r info t = renderTok names r' info t := by
+  unfold renderTok
+  split <;> simp [h]
+
+/-- **`--zero-cap` touches only the qualities, `--rename` only the name (and reads only name and info)**: applying them in either
+    order gives the same read, info and events — the documented "renaming and zero-capping" group is order-independent -/
+theorem rename_zeroCap_commute (names : Names) (side base : Nat) (tmpl : List Tok) (read : Read) (info : Info) :
+    ((applyS names side (.zeroCap base) read info).bind fun (r1, i1, e1) =>
+      (applyS names side (.rename tmpl) r1 i1).bind fun (r2, i2, e2) => .ok (r2, i2, e1 ++ e2)) =
+    ((applyS names side (.rename tmpl) read info).bind fun (r1, i1, e1) =>
+      (applyS names side (.zeroCap base) r1 i1).bind fun (r2, i2, e2) => .ok (r2, i2, e1 ++ e2)) := by
+  simp only [applyS, Except.bind]
+  have : renderTok names { read with qual := read.qual.map (fun q => q.map (fun c => if c.toNat < base then base.toUInt8 else c)) } info
+      = renderTok names read info := by
+    funext t
+    exact renderTok_name_only names _ _ info rfl t
+  rw [this]
+  cases List.mapM (renderTok names read info) tmpl with
+  | error e => rfl
+  | ok parts => rfl
+
+/-! ## Paired-end: order and routing -/
+
+/-- **`makeModsPaired` = the documented stages with the documented routing** (`documentedPaired`): `-u` on R1 only, `-U` on R2 only, NextSeq
+    trimming on both, the quality trimmers `qR1`/`qR2`, the adapter stage, poly-A (R1) / poly-T (R2), `--length`/`-L`, the
+    both-end modifiers on both reads, the paired renamer -/
+theorem routing (o : Opts) (ads1 ads2 : List Matchable) (l : List PMod) (h : makeModsPaired o ads1 ads2 = .ok l) :
+    l = (cutStage o.cut).map onR1 ++ (cutStage o.cut2).map onR2 ++
+        (nextseqStage o).map onBoth ++
+        (if (qR1 o).isSome || (qR2 o).isSome then [.wrap (qR1 o) (qR2 o)] else []) ++
+        adapterStageP o ads1 ads2 ((cutStage o.cut).isEmpty && o.nextseqTrim.isNone && (qR1 o).isNone)
+          ((cutStage o.cut2).isEmpty && o.nextseqTrim.isNone && (qR2 o).isNone) ++
+        (if o.polyA then [.wrap (some (.polyA false)) (some (.polyA true))] else []) ++
+        shortenStageP o ++
+        (bothEndMods o).map onBoth ++
+        (match o.rename with | some t => [.pairedRename t t] | none => []) := by
+  rw [makeModsPaired_eq] at h
+  split at h
+  · cases h
+  · cases h
+  · split at h
+    · cases h
+    · injection h with h; exact h.symm
+
+/-- `-q` without `-Q`: the same trimmer on both reads; with `-Q`: each read its own; `-Q 0`: no R2 trimmer while R1 keeps its own -/
+theorem routing_quality (o : Opts) :
+    (o.qualityCutoff2 = none → qR2 o = qR1 o) ∧
+    (∀ a b, o.qualityCutoff2 = some (some (a, b)) → qR2 o = some (.qtrim a b o.qualityBase)) ∧
+    (o.qualityCutoff2 = some none → qR2 o = none) ∧
+    (∀ a b, o.qualityCutoff = some (some (a, b)) → qR1 o = some (.qtrim a b o.qualityBase)) ∧
+    (o.qualityCutoff = none ∨ o.qualityCutoff = some none → qR1 o = none) := by
+  refine ⟨?_, ?_, ?_, ?_, ?_⟩
+  · intro h; simp [qR2, h]
+  · intro a b h; simp [qR2, h, qtrimOf]
+  · intro h; simp [qR2, h, qtrimOf]
+  · intro a b h; simp [qR1, h, qtrimOf]
+  · intro h; rcases h with h | h <;> simp [qR1, h, qtrimOf]
+
+/-- `--length` without `-L` on both reads, `-L` alone on R2 only, both: each read its own -/
+theorem routing_length (o : Opts) :
+    (∀ a, o.length = some a → o.length2 = none → shortenStageP o = [onBoth (.shorten a)]) ∧
+    (∀ b, o.length = none → o.length2 = some b → shortenStageP o = [onR2 (.shorten b)]) ∧
+    (∀ a b, o.length = some a → o.length2 = some b → shortenStageP o = [.wrap (some (.shorten a)) (some (.shorten b))]) ∧
+    (o.length = none → o.length2 = none → shortenStageP o = []) := by
+  refine ⟨?_, ?_, ?_, ?_⟩ <;> intros <;> simp [shortenStageP, onBoth, onR2, *]
+
+/-- adapters: `-a`, `-g`, `-b` (`ads1`) make the R1 cutter, `-A`, `-G`, `-B` (`ads2`) the R2 cutter (no cutter for an empty list) -/
+theorem routing_adapters (o : Opts) (ads1 ads2 : List Matchable) (f1 f2 : Bool) (hp : o.pairAdapters = false)
+    (hr : o.revcomp = false) (hne : ads1 ≠ [] ∨ ads2 ≠ []) :
+    adapterStageP o ads1 ads2 f1 f2 =
+      [.wrap (if ads1 = [] then none else some (.adapters ⟨ads1, o.times, o.action⟩ f1))
+             (if ads2 = [] then none else some (.adapters ⟨ads2, o.times, o.action⟩ f2))] := by
+  unfold adapterStageP cutterOf
+  cases ads1 <;> cases ads2 <;> simp_all
+
+/-- a modifier routed to R1 only leaves R2 and its info untouched … -/
+theorem onR1_leaves_R2 (a1 a2 : List Matchable) (m : SMod) (r1 r2 r1' r2' : Read) (i1 i2 i1' i2' : Info) (evs : List Event)
+    (h : applyP a1 a2 (onR1 m) (r1, r2) (i1, i2) = .ok ((r1', r2'), (i1', i2'), evs)) :
+    r2' = r2 ∧ i2' = i2 ∧ applyS (namesOf a1) 0 m r1 i1 = .ok (r1', i1', evs) := by
+  simp only [onR1, applyP, bind, Except.bind, pure, Except.pure] at h
+  cases hs : applyS (namesOf a1) 0 m r1 i1 with
+  | error e => simp [hs] at h
+  | ok t =>
+    obtain ⟨x, y, z⟩ := t
+    simp [hs] at h
+    obtain ⟨⟨rfl, rfl⟩, ⟨rfl, rfl⟩, rfl⟩ := h
+    exact ⟨rfl, rfl, rfl⟩
+
+/-- … and symmetrically -/
+theorem onR2_leaves_R1 (a1 a2 : List Matchable) (m : SMod) (r1 r2 r1' r2' : Read) (i1 i2 i1' i2' : Info) (evs : List Event)
+    (h : applyP a1 a2 (onR2 m) (r1, r2) (i1, i2) = .ok ((r1', r2'), (i1', i2'), evs)) :
+    r1' = r1 ∧ i1' = i1 ∧ applyS (namesOf a2) 1 m r2 i2 = .ok (r2', i2', evs) := by
+  simp only [onR2, applyP, bind, Except.bind, pure, Except.pure] at h
+  cases hs : applyS (namesOf a2) 1 m r2 i2 with
+  | error e => simp [hs] at h
+  | ok t =>
+    obtain ⟨x, y, z⟩ := t
+    simp [hs] at h
+    obtain ⟨⟨rfl, rfl⟩, ⟨rfl, rfl⟩, rfl⟩ := h
+    exact ⟨rfl, rfl, rfl⟩
+
+/-- a wrapped pair of modifiers acts on each read separately: R1 sees only R1, R2 only R2 -/
+theorem wrap_acts_sidewise (a1 a2 : List Matchable) (m1 m2 : SMod) (r1 r2 r1' r2' : Read) (i1 i2 i1' i2' : Info) (evs : List Event)
+    (h : applyP a1 a2 (.wrap (some m1) (some m2)) (r1, r2) (i1, i2) = .ok ((r1', r2'), (i1', i2'), evs)) :
+    ∃ e1 e2, applyS (namesOf a1) 0 m1 r1 i1 = .ok (r1', i1', e1) ∧ applyS (namesOf a2) 1 m2 r2 i2 = .ok (r2', i2', e2) ∧
+      evs = e1 ++ e2 := by
+  simp only [applyP, bind, Except.bind, pure, Except.pure] at h
+  cases hs : applyS (namesOf a1) 0 m1 r1 i1 with
+  | error e => simp [hs] at h
+  | ok t =>
+    obtain ⟨x, y, z⟩ := t
+    cases hs2 : applyS (namesOf a2) 1 m2 r2 i2 with
+    | error e => simp [hs, hs2] at h
+    | ok t2 =>
+      obtain ⟨x2, y2, z2⟩ := t2
+      simp [hs, hs2] at h
+      obtain ⟨⟨rfl, rfl⟩, ⟨rfl, rfl⟩, rfl⟩ := h
+      exact ⟨_, _, rfl, rfl, rfl⟩
+
+theorem pRank_onR1 (m : SMod) : pRank (onR1 m) = stageRank m := rfl
+theorem pRank_onR2 (m : SMod) : pRank (onR2 m) = stageRank m := rfl
+theorem pRank_onBoth (m : SMod) : pRank (onBoth m) = stageRank m := rfl
+
+/-- **Paired-end: the modifiers are in the documented order** -/
+theorem stage_order_paired (o : Opts) (ads1 ads2 : List Matchable) (l : List PMod) (h : makeModsPaired o ads1 ads2 = .ok l) :
+    l.Pairwise (fun a b => pRank a ≤ pRank b) := by
+  rw [routing o ads1 ads2 l h]
+  have r0 : ∀ b ∈ (cutStage o.cut).map onR1, pRank b = 0 := by
+    intro b hb; simp at hb; obtain ⟨m, hm, rfl⟩ := hb; rw [pRank_onR1]; exact rank_cutStage _ m hm
+  have r0' : ∀ b ∈ (cutStage o.cut2).map onR2, pRank b = 0 := by
+    intro b hb; simp at hb; obtain ⟨m, hm, rfl⟩ := hb; rw [pRank_onR2]; exact rank_cutStage _ m hm
+  have r1 : ∀ b ∈ (nextseqStage o).map onBoth, pRank b = 1 := by
+    intro b hb; simp at hb; obtain ⟨m, hm, rfl⟩ := hb; rw [pRank_onBoth]; exact rank_nextseqStage _ m hm
+  have r2 : ∀ b ∈ (if (qR1 o).isSome || (qR2 o).isSome then [PMod.wrap (qR1 o) (qR2 o)] else []), pRank b = 2 := by
+    intro b hb
+    have q1 : ∀ m, qR1 o = some m → stageRank m = 2 := by
+      intro m hm; unfold qR1 qtrimOf at hm; split at hm <;> simp at hm; subst hm; rfl
+    have q2 : ∀ m, qR2 o = some m → stageRank m = 2 := by
+      intro m hm; unfold qR2 at hm
+      split at hm
+      · exact q1 m hm
+      · unfold qtrimOf at hm; split at hm <;> simp at hm; subst hm; rfl
+    split at hb
+    · simp at hb; subst hb
+      cases h1 : qR1 o with
+      | some m => exact q1 m h1
+      | none =>
+        cases h2 : qR2 o with
+        | some m => exact q2 m h2
+        | none => simp_all
+    · simp at hb
+  have r3 : ∀ f1 f2, ∀ b ∈ adapterStageP o ads1 ads2 f1 f2, pRank b = 3 := by
+    intro f1 f2 b hb
+    unfold adapterStageP at hb
+    split at hb
+    · simp at hb; subst hb; rfl
+    · split at hb
+      · simp at hb
+      · rename_i hnn
+        split at hb
+        · simp at hb; subst hb; rfl
+        · simp at hb; subst hb
+          cases h1 : cutterOf o ads1 with
+          | some c => rfl
+          | none =>
+            cases h2 : cutterOf o ads2 with
+            | some c => rfl
+            | none => simp [h1, h2] at hnn
+  have r4 : ∀ b ∈ (if o.polyA then [PMod.wrap (some (.polyA false)) (some (.polyA true))] else []), pRank b = 4 := by
+    intro b hb; split at hb <;> simp at hb; subst hb; rfl
+  have r5 : ∀ b ∈ shortenStageP o, pRank b = 5 := by
+    intro b hb; unfold shortenStageP at hb; split at hb <;> simp at hb <;> subst hb <;> rfl
+  have rb := bothEndMods_below o
+  have r6 : RankSorted pRank ((bothEndMods o).map onBoth) := by
+    unfold RankSorted
+    rw [List.pairwise_map]
+    exact rb.1
+  have r6b : ∀ b ∈ (bothEndMods o).map onBoth, 6 ≤ pRank b ∧ pRank b ≤ 10 := by
+    intro b hb; simp at hb; obtain ⟨m, hm, rfl⟩ := hb; rw [pRank_onBoth]; exact rb.2 m hm
+  have r10 : ∀ b ∈ (match o.rename with | some t => [PMod.pairedRename t t] | none => []), pRank b = 10 := by
+    intro b hb; split at hb <;> simp at hb; subst hb; rfl
+  have h0 := ((Below.nil pRank 0).append_const pRank (Nat.le_refl _) r0).append_const pRank (Nat.le_refl _) r0'
+  have h1 := h0.append_const pRank (by omega : 0 ≤ 1) r1
+  have h2 := h1.append_const pRank (by omega : 1 ≤ 2) r2
+  have h3 := h2.append_const pRank (by omega : 2 ≤ 3)
+    (r3 ((cutStage o.cut).isEmpty && o.nextseqTrim.isNone && (qR1 o).isNone) ((cutStage o.cut2).isEmpty && o.nextseqTrim.isNone && (qR2 o).isNone))
+  have h4 := h3.append_const pRank (by omega : 3 ≤ 4) r4
+  have h5 := h4.append_const pRank (by omega : 4 ≤ 5) r5
+  have h6 := h5.append pRank r6 (fun b hb => by have := (r6b b hb).1; omega) (fun b hb => (r6b b hb).2) (by omega : 5 ≤ 10)
+  have h7 := h6.append_const pRank (Nat.le_refl 10) r10
+  simpa only [List.nil_append, RankSorted] using h7.1
+
+/-! ## Generated stage order (from the real `make_pipeline_from_args`) -/
+
+def className : SMod → String
+  | .cut _ => "UnconditionalCutter"
+  | .nextseq _ _ => "NextseqQualityTrimmer"
+  | .qtrim _ _ _ => "QualityTrimmer"
+  | .adapters _ _ => "AdapterCutter"
+  | .revcomp _ _ _ => "ReverseComplementer"
+  | .polyA _ => "PolyATrimmer"
+  | .shorten _ => "Shortener"
+  | .trimN => "NEndTrimmer"
+  | .lengthTag _ => "LengthTagModifier"
+  | .stripSuffix _ => "SuffixRemover"
+  | .prefixSuffix _ _ => "PrefixSuffixAdder"
+  | .zeroCap _ => "ZeroCapper"
+  | .rename _ => "Renamer"
+
+def pClassName : PMod → String × String
+  | .wrap m1 m2 => ((m1.map className).getD "None", (m2.map className).getD "None")
+  | .pairedRevcomp .. => ("PairedReverseComplementer", "PairedReverseComplementer")
+  | .pairAdapters .. => ("PairedAdapterCutter", "PairedAdapterCutter")
+  | .pairedRename .. => ("PairedEndRenamer", "PairedEndRenamer")
+
+def stepName (paired : Bool) : Step → String
+  | .restWriter _ => "RestFileWriter"
+  | .infoWriter _ => "InfoFileWriter"
+  | .wildcardWriter _ => "WildcardFileWriter"
+  | .sink _ => if paired then "PairedEndSink" else "SingleEndSink"
+  | .demux _ _ => if paired then "PairedDemultiplexer" else "Demultiplexer"
+  | .combDemux _ => "CombinatorialDemultiplexer"
+  | s => (Step.filterIdent s).getD ""
+
+/-- the `-a A=ACGT` / `-A B=TTTT` adapters of the generator's command lines -/
+def exAdapter (seq : Bytes) (name : String) : Matchable :=
+  .single { ty := .back, seq := seq, thr := (fun L => L / 10), minOverlap := 3, readWildcards := false, adapterWildcards := false,
+            indels := true, name := name }
+
+/-- `-u 1 -u -1 --nextseq-trim 10 -q 10,10 -a A=ACGT --poly-a -l 10 --trim-n --length-tag length= --strip-suffix x -x P --zero-cap` -/
+def exOpts : Opts :=
+  { cut := [1, -1], nextseqTrim := some 10, qualityCutoff := some (some (10, 10)), polyA := true, length := some 10, trimN := true,
+    lengthTag := some [108, 101, 110, 103, 116, 104, 61], stripSuffix := [[120]], pfx := [80], zeroCap := true }
+/-- … with `--rename '{id} x'` instead of `-x P` -/
+def exOptsRename : Opts :=
+  { exOpts with pfx := [], rename := some [.var "id", .lit [32, 120]], renameGiven := true }
+/-- … paired-end: additionally `-U 2 -U -2 -Q 5,5 -A B=TTTT -L 8` -/
+def exOptsPaired (o : Opts) : Opts :=
+  { o with paired := true, cut2 := [2, -2], qualityCutoff2 := some (some (5, 5)), length2 := some 8, pairedOutput := some "out2" }
+/-- `--info-file … --rest-file … --wildcard-file … -m 1 -M 100 --max-n 1 --max-ee 1 --max-aer 0.5 --discard-casava --discard-untrimmed` -/
+def exOptsSteps : Opts :=
+  { restFile := some "rest", infoFile := some "info", wildcardFile := some "wild", minLen := some (some 1, none),
+    maxLen := some (some 100, none), maxN := some 1, maxEE := some 1, maxAER := some 0.5, discardCasava := true, discardUntrimmed := true }
+
+def namesOfMods (r : Except Err (List SMod)) : List String := match r with | .ok l => l.map className | .error _ => ["error"]
+def namesOfPMods (r : Except Err (List PMod)) : List (String × String) := match r with | .ok l => l.map pClassName | .error _ => [("error", "error")]
+def namesOfSteps (paired : Bool) (r : Except Err (List Step × Files)) : List String :=
+  match r with | .ok (l, _) => l.map (stepName paired) | .error _ => ["error"]
+
+/-- **The order in which the real `make_pipeline_from_args` puts the modifiers is the documented one** (regenerated from the working
+    tree on every run) … -/
+theorem generated_stage_order_is_documented :
+    Generated.stageOrderSingle =
+      ["UnconditionalCutter", "UnconditionalCutter", "NextseqQualityTrimmer", "QualityTrimmer", "AdapterCutter", "PolyATrimmer",
+       "Shortener", "NEndTrimmer", "LengthTagModifier", "SuffixRemover", "PrefixSuffixAdder", "ZeroCapper"] ∧
+    Generated.stageOrderSingleRename =
+      ["UnconditionalCutter", "UnconditionalCutter", "NextseqQualityTrimmer", "QualityTrimmer", "AdapterCutter", "PolyATrimmer",
+       "Shortener", "NEndTrimmer", "LengthTagModifier", "SuffixRemover", "ZeroCapper", "Renamer"] := by
+  decide
+
+/-- … and it is what the assembly model produces for the corresponding option record -/
+theorem generated_stage_order_is_model :
+    namesOfMods (makeModsSingle exOpts [exAdapter [65, 67, 71, 84] "A"]) = Generated.stageOrderSingle ∧
+    namesOfMods (makeModsSingle exOptsRename [exAdapter [65, 67, 71, 84] "A"]) = Generated.stageOrderSingleRename := by
+  decide
+
+/-- paired-end: the routing `(class on R1, class on R2)` of the real pipeline is the documented one and the model's -/
+theorem generated_paired_stage_order_is_model :
+    namesOfPMods (makeModsPaired (exOptsPaired exOpts) [exAdapter [65, 67, 71, 84] "A"] [exAdapter [84, 84, 84, 84] "B"]) =
+      Generated.stageOrderPaired ∧
+    namesOfPMods (makeModsPaired (exOptsPaired exOptsRename) [exAdapter [65, 67, 71, 84] "A"] [exAdapter [84, 84, 84, 84] "B"]) =
+      Generated.stageOrderPairedRename ∧
+    Generated.stageOrderPaired =
+      [("UnconditionalCutter", "None"), ("UnconditionalCutter", "None"), ("None", "UnconditionalCutter"), ("None", "UnconditionalCutter"),
+       ("NextseqQualityTrimmer", "NextseqQualityTrimmer"), ("QualityTrimmer", "QualityTrimmer"), ("AdapterCutter", "AdapterCutter"),
+       ("PolyATrimmer", "PolyATrimmer"), ("Shortener", "Shortener"), ("NEndTrimmer", "NEndTrimmer"),
+       ("LengthTagModifier", "LengthTagModifier"), ("SuffixRemover", "SuffixRemover"), ("PrefixSuffixAdder", "PrefixSuffixAdder"),
+       ("ZeroCapper", "ZeroCapper")] := by
+  decide
+
+/-- **Step order (C11)**: the real pipeline writes rest/info/wildcard files first, then filters in the documented order, then the sink -/
+theorem generated_step_order_is_documented :
+    Generated.stepOrderSingle =
+      ["RestFileWriter", "InfoFileWriter", "WildcardFileWriter", "too_short", "too_long", "too_many_n", "too_many_expected_errors",
+       "too_high_average_error_rate", "casava_filtered", "discard_untrimmed", "SingleEndSink"] := by
+  decide
+
+/-! ## Non-vacuity -/
+
+/-- options in "wrong" order on the command line do not matter: the record has no order; a bare `-l 5 -u 2` pipeline cuts first -/
+example : namesOfMods (makeModsSingle { length := some 5, cut := [2] } []) = ["UnconditionalCutter", "Shortener"] := by decide
+/-- `-u 3 -u 4` (same sign) is rejected -/
+example : namesOfMods (makeModsSingle { cut := [3, 4] } []) = ["error"] := by decide
+/-- `-Q 0`: R1 keeps its trimmer, R2 has none -/
+example : namesOfPMods (makeModsPaired { paired := true, qualityCutoff := some (some (0, 20)), qualityCutoff2 := some none } [] []) =
+    [("QualityTrimmer", "None")] := by decide
+/-- `-L` alone: R2 only -/
+example : namesOfPMods (makeModsPaired { paired := true, length2 := some 30 } [] []) = [("None", "Shortener")] := by decide
+
 end Cutadapt.C10
